@@ -284,9 +284,9 @@ class Pair:
         if not (self.tc.is_active() and self.ts.is_active() and self.tc.is_authenticated()):
             raise RuntimeError("transport pair did not come up")
 
-    def open_session(self, timeout=10):
-        """returns (client channel, server channel)"""
-        c = self.tc.open_session(timeout=timeout)
+    def open_session(self, timeout=10, window=None):
+        """returns (client channel, server channel); window = the client's receive window (the server's send window)"""
+        c = self.tc.open_session(timeout=timeout, window_size=window)
         s = self.ts.accept(timeout)
         if s is None:
             raise RuntimeError("server did not accept the channel")
@@ -338,7 +338,9 @@ def chunk_plan(rnd, total, style):
     out, left = [], total
     lo = max(1, total // 150)
     while left > 0:
-        if style == "tiny":
+        if style == "whole":
+            n = left
+        elif style == "tiny":
             n = rnd.randint(1, max(1, min(left, 64)))
         elif style == "small":
             n = rnd.randint(lo, max(lo, min(left, 4096)))
@@ -388,6 +390,9 @@ def e2e_scenarios(rnd, count, big):
         chans[0]["status"] = rnd.choice([2 ** 31, 0xC000013A, 2 ** 32 - 1])     # every scenario: top bit set ...
         if nchan > 1:
             chans[1]["status"] = rnd.choice([256, 65536, 2 ** 31 - 1])          # ... and wider than a byte
+        if i == 2:      # every batch: a 32 KiB window, each stream written by ONE sendall three windows long, slow reader
+            chans[0].update({"out": 100000, "err": 100000, "combine": "off", "window": 32768,
+                             "styles": ["whole", "whole", chans[0]["styles"][2]], "rstyles": ["small", "small", "small"]})
         if i == 1:                                              # every batch has a late switch with stderr buffered
             chans[0]["combine"] = "late"
             chans[0]["err"] = max(chans[0]["err"], rnd.randint(1, 5000))
@@ -403,7 +408,7 @@ def e2e_scenarios(rnd, count, big):
                      "rekey": rnd.choice(["none", "threshold", "threshold", "explicit_client", "explicit_server"]),
                      "rekey_bytes": rnd.choice([20000, 60000, 200000]), "rekey_packets": rnd.choice([8, 40, 1000]),
                      "seed": rnd.randrange(1 << 30), "wrap_ids": rnd.random() < 0.5,
-                     "lazy": rnd.choice([0.0, 0.0, 0.1, 0.4])})
+                     "lazy": 0.4 if i == 2 else rnd.choice([0.0, 0.0, 0.1, 0.4])})
     return scns
 
 
@@ -440,7 +445,7 @@ def run_e2e(scn, watchdog=120.0):
     try:
         sessions = []
         for ci, ch in enumerate(scn["chans"]):
-            c, s = pair.open_session()
+            c, s = pair.open_session(window=ch.get("window"))
             c.settimeout(watchdog)
             s.settimeout(watchdog)
             if ch["combine"] == "before":
@@ -729,6 +734,69 @@ def combine_explore(prog, mode, bound, max_runs, seed):
         else:
             it = ls.explore_random(sc, max_runs, seed, p_switch=0.4, trace_files=files, line_filter=lf)
         for ex in it:
+            yield ex
+
+
+# --------------------------------------------------------------------------- C21: sendall against a small window
+
+def sendall_scenario(window, n_out, n_err, grants, seed=5):
+    """sender side of one real Channel (recording fake transport) whose send window is `window`: thread So runs ONE
+    sendall(n_out bytes), Se ONE sendall_stderr(n_err bytes); thread G plays the peer: whenever the window is
+    used up it grants the next amount of `grants` (cyclically).  The DATA / EXTENDED_DATA messages handed to the
+    transport, in order, are what the peer's application will read: they are rendered as the trace's reads."""
+    from harness.drivers import chan as dchan
+    book = Codebook(seed, 0)
+    d_out, d_err = book.make(0, n_out), book.make(1, n_err)
+
+    def scenario(S):
+        ch, ft = dchan.make_channel(out_window=window, out_packet=32768)
+        st = {"left": (1 if n_out else 0) + (1 if n_err else 0), "errors": []}
+
+        def sender(fn, data):
+            def body():
+                try:
+                    fn(data)
+                except Exception as e:  # noqa
+                    st["errors"].append(repr(e))
+                finally:
+                    st["left"] -= 1
+            return body
+
+        def granter():
+            i = 0
+            while st["left"] > 0:
+                S.block(lambda: ch.out_window_size == 0 or st["left"] == 0, None, "window used up")
+                if st["left"] == 0:
+                    break
+                ch._window_adjust(dchan.msg_adjust(grants[i % len(grants)]))
+                i += 1
+        if n_out:
+            S.spawn(sender(ch.sendall, d_out), "So")
+        if n_err:
+            S.spawn(sender(ch.sendall_stderr, d_err), "Se")
+        S.spawn(granter, "G")
+
+        def after(ex):
+            events, t = [], 0
+            for rec in ft.sent:
+                if rec["t"] in ("DATA", "EXT"):
+                    t += 2
+                    events.append({"ep": "out" if rec["t"] == "DATA" else "err", "t0": t - 1, "t1": t,
+                                   "data": rec["data"]})
+            book.render(events)
+            return {"chan": 0, "dir": "up", "sent": {"out": n_out, "err": n_err}, "combine": "off", "events": events,
+                    "comb_t0": 0, "comb_t1": 0, "status_sent": limbs(None), "status_got": limbs(None),
+                    "errors": st["errors"], "quiescent": not (ex.hang or ex.stuck or ex.budget_exhausted)}
+        return after
+    return scenario
+
+
+def sendall_explore(window, n_out, n_err, grants, bound, max_runs):
+    import paramiko.channel as pch
+    import paramiko.buffered_pipe as bp
+    sc = sendall_scenario(window, n_out, n_err, grants)
+    with ls.patched(bp, pch):
+        for ex in ls.explore_dfs(sc, bound=bound, max_runs=max_runs, max_steps=200000):
             yield ex
 
 
